@@ -127,6 +127,38 @@ CLAIMED = {
          'scipy.signal.convolve are checked against the models on explored inputs; kernels\' exp values are float (laws checked directly).'),
    technique='Lean 4 proof over exact-rational models of padding/convolution + correspondence',
    design='4.C18'),
+ 'C15': dict(
+   text=('Lean 4 theorems (PbVerif.Props.C15) about decision-function models of the checkers of _validation.py over an abstraction of '
+         'Python values (numbers, nan, +-inf, None, strings, flat and nested sequences): an accepted half window is a positive integer '
+         'equal to what the caller passed (one value AND the two-value path); every non-positive or non-integer half window, every '
+         'lam <= 0 (also inside a pair), every sequence where one value is required, every wrong-length pair, every negative integer '
+         'parameter is rejected; a non-finite entry at ANY position makes a finiteness-checked array raise; a wrong-length per-point '
+         'array is rejected for every length and orientation; solver setter and interval guards characterised. Correspondence: the real '
+         'checkers vs the model on every value-class representative x flags (exhaustive finite product); every public method (95) x '
+         'every listed scalar parameter it has x out-of-domain values, non-finite data at first/last/random positions, wrong-length and '
+         'non-finite data/weights/alpha, invalid solver and method names, with sorted and unsorted x (and z): must raise '
+         'ValueError/TypeError.'),
+   note=('Trusted: Lean kernel; axioms propext, Classical.choice, Quot.sound; harness; NumPy conversions are modelled. Which method '
+         'parameter is bound to which checker is decided by the exhaustive method-level run, not by a theorem. Exclusions stated in '
+         'the evidence assumptions (inactive lam of rubberband/custom_bc, smooth_half_window, closed p interval of the mpls family, '
+         'classification half windows).'),
+   technique='Lean 4 proof over decision-function models of the validators + exhaustive finite correspondence over value classes and all methods',
+   design='4.C15'),
+ 'C17': dict(
+   text=('Lean 4 theorems (PbVerif.Props.C17) about the index plumbing of the optimizers: cut-back after padding is the identity and '
+         'gives the data\'s length for every side and width; np.roll(...)[:added] picks exactly the added right block then the added '
+         'left block; the chosen index is a first minimiser; custom_bc with one full region and unit sampling plans x_fit = x, '
+         'y_fit = y; adaptive_minmax\'s constrained weights and point-wise maximum (dominates each fit, attained by one) and the order '
+         'of its four fits. Correspondence = re-execution of the documented composition on the real code: collab_pls baselines vs '
+         'single-pass wrapped fits with the reported average weights/alpha (21 wrapped methods, both averaging modes, any letter case), '
+         'adaptive_minmax vs the maximum of the four fits from the reported orders and weights, custom_bc identity vs the wrapped method '
+         '(13 methods) and general region plans vs the Lean planner, optimize_extended_range vs a direct fit of the re-built extended '
+         'data with the reported optimal parameter, cut-back weights, min_rmse; class and functional interfaces, sorted/rotated/shuffled x.'),
+   note=('Trusted: Lean kernel; axioms propext, Classical.choice, Quot.sound; harness (incl. its reference construction of the extended '
+         'data set). The wrapped method is a black box by design. Observation (not claimed as violation): for polynomial methods the '
+         'reported rmse array is integer-typed and therefore truncated.'),
+   technique='Lean 4 proof of the planners\' index algebra + recomposition of every optimizer output from direct calls of the real wrapped method',
+   design='4.C17'),
 }
 
 checks = []
